@@ -7,6 +7,7 @@
 //! Exit codes: 0 = ran (violations are in the output), 2 = harness error.
 
 mod clock;
+mod fdseam;
 mod entropy;
 mod nodes;
 mod plan;
@@ -62,6 +63,7 @@ fn generate(prop: &str, seed: u64, thorough: bool) -> Option<Plan> {
         "C04udp" => Some(scen_ustream::gen_ustream("C04", seed, thorough)),
         "C07srv" => Some(scen_hsrv::gen_hsrv(seed, thorough)),
         "C07udp" => Some(scen_ustream::gen_ustream("C07", seed, thorough)),
+        "C05ustream" => Some(scen_ustream::gen_ustream("C05", seed, thorough)),
         "C08udp" => Some(scen_c08u::gen_c08u(seed, thorough)),
         "C09" => Some(scen_tcp::gen_c09(seed, thorough)),
         "C09hostile" => Some(scen_c08::gen_c09_hostile(seed, thorough)),
